@@ -1,6 +1,7 @@
 package props
 
 import (
+	"fmt"
 	"go/types"
 	"strings"
 
@@ -210,4 +211,100 @@ func collectStores(c *Ctx, cb *ssa.Function, recv *ssa.Parameter) map[ssa.Instru
 		}
 	}
 	return out
+}
+
+// importRejects is rule A7.import-accepts-export: the import of a genesis document (the module's ValidateGenesis and the
+// functions of its InitGenesis route) does not turn a record away because of how one of its fields compares with one of
+// the *parameters* of the same document. Parameters are changed by governance while records stay as they were written
+// (a storage limit bought under the old maximum, a fee paid under the old schedule): a state the chain itself reached
+// would then export a document the import refuses, and no new chain could be started from it. (Bounds that hold for every
+// reachable state — against constants, or between fields of one record — are not concerned.)
+func importRejects(c *Ctx, mods ...string) {
+	w, r := c.W, c.R
+	n := 0
+	for _, m := range mods {
+		var fs []*ssa.Function
+		for f := range genesisFuncs(c, "INITGEN", m) {
+			if ir.ModuleOf(f) == m {
+				fs = append(fs, f)
+			}
+		}
+		if vg := w.LookupFunc("x/" + m + "/types.ValidateGenesis"); vg != nil {
+			fs = append(fs, vg)
+			for g := range w.Reachable([]*ssa.Function{vg}) {
+				if ir.FnPkg(g) == ir.FnPkg(vg) && !w.IsGenerated(g) && g != vg && g.Name() != "Validate" && !strings.HasPrefix(g.Name(), "validate") {
+					fs = append(fs, g)
+				}
+			}
+		}
+		sortFuncs(fs)
+		seen := map[*ssa.Function]bool{}
+		for _, f := range fs {
+			if seen[f] || w.IsGenerated(f) {
+				continue
+			}
+			seen[f] = true
+			for _, b := range f.Blocks {
+				iff, ok := b.Instrs[len(b.Instrs)-1].(*ssa.If)
+				if !ok {
+					continue
+				}
+				rejects := false
+				for _, su := range b.Succs {
+					if onlyAbortsFrom(c, f, su) {
+						rejects = true
+					}
+				}
+				if !rejects {
+					continue
+				}
+				n++
+				e := w.Expand(w.ExprOf(iff.Cond), 2)
+				isParam := func(z *ir.Expr) bool {
+					return z.Op == "field" && len(z.Args) == 1 && z.Args[0].Op == "field" && z.Args[0].Name == "Params"
+				}
+				isRecord := func(z *ir.Expr) bool {
+					return z.Op == "field" && len(z.Args) == 1 && z.Args[0].Op == "elem" && !z.Args[0].Any(func(y *ir.Expr) bool { return y.Op == "field" && y.Name == "Params" })
+				}
+				op, x, y, okc := ir.Pred{E: e, Pol: true}.Cmp()
+				bad := okc && (x.Any(isParam) && y.Any(isRecord) || y.Any(isParam) && x.Any(isRecord))
+				_ = op
+				r.Require(!bad, "A7.import-accepts-export", fmt.Sprintf("%s|%s", fn(f), w.InstrPos(iff)), pos(c, iff),
+					"the import refuses no record for how it compares with a parameter of the document (governance may have changed the parameter after the record was written; the exported state of a running chain must import)", "rejects on "+e.String())
+			}
+		}
+	}
+	r.Floor("rejecting branches on genesis import routes", n, 10)
+}
+
+// onlyAbortsFrom: every way on from block b ends in a panic or in a return with a provably non-nil error.
+func onlyAbortsFrom(c *Ctx, f *ssa.Function, b *ssa.BasicBlock) bool {
+	seen := map[*ssa.BasicBlock]bool{}
+	var visit func(x *ssa.BasicBlock) bool
+	visit = func(x *ssa.BasicBlock) bool {
+		if seen[x] {
+			return true
+		}
+		seen[x] = true
+		if len(x.Instrs) == 0 {
+			return false
+		}
+		switch t := x.Instrs[len(x.Instrs)-1].(type) {
+		case *ssa.Panic:
+			return true
+		case *ssa.Return:
+			ei := ir.ErrIndex(f)
+			return ei >= 0 && ei < len(t.Results) && c.W.ProvablyNonNil(f, t, t.Results[ei])
+		}
+		if len(x.Succs) == 0 {
+			return false
+		}
+		for _, s := range x.Succs {
+			if !visit(s) {
+				return false
+			}
+		}
+		return true
+	}
+	return visit(b)
 }
